@@ -23,7 +23,7 @@ Lemmas/StreamChunk: `ustep` with the ring buffer erased, every `ustep` step IS a
   with a PROCESS call before (the FINISH / FLUSH call then issues one more, EMPTY, flagged request).
   This is real: `chunking_counterexample_*` below (the model, from a fresh encoder, 16384 bytes at
   quality 2), and stage `boundary` of `bvh stream c05` on the real code (requests as predicted in
-  64/64 cases, bytes differ in 6/64 with the generated data).
+  80/80 cases, bytes differ in 6/80 with the generated data).
 
 Theorem `chunking_irrelevant`: ANY two ways of cutting the same data into PROCESS chunks in front of
 the same kind of final request, all requests driven under arbitrary output schedules: equal states up
